@@ -1,6 +1,7 @@
 // Verification harness compiled *inside* a mirror of the gufo_snmp crate
 // (see py/vlib/build.py): it can name pub(crate) items and private modules.
 pub mod buffer_model;
+pub mod fuzz_entry;
 pub mod props;
 pub mod refenc;
 pub mod runner;
